@@ -40,6 +40,15 @@ def macroSem : MacroSem := fun name vs =>
       some (.bv 64 (BitVec.ofNat 64 ((List.range 8).foldl (fun acc i => acc ||| (b i <<< (8 * (7 - i)))) 0)))
   | _, _ => none
 
+/-- `get_corresponding_CS(pkt, MuV)` (the CS register that belongs to the modifier register of the instruction) is an
+    uninterpreted function of its payload-free pass-through arguments (`evalCH .xmacro`, `evalPure .macro`): per
+    sampled state a constant, taken from the cell `cs:Mu` of that state so that it varies over the sample. -/
+def macroSemFor (σ0 : MState) : MacroSem := fun name vs =>
+  match name.toLower, vs with
+  | "get_corresponding_cs", [.ext, .ext] => some (.bv 32 (BitVec.ofNat 32 (σ0.cur "cs:Mu")))
+  | "hex_get_corresponding_cs", [.ext, .ext] => some (.bv 32 (BitVec.ofNat 32 (σ0.cur "cs:Mu")))
+  | _, _ => macroSem name vs
+
 /-! ### sampled machine states -/
 
 def boundary : List Nat :=
@@ -136,6 +145,8 @@ def usrCellsOfExpr : CExpr → List String
   | .call _ args _ _ => usrCellsOfExprs args
   | .stmtexpr _ _ e => usrCellsOfExpr e
   | .seqexpr name exts args _ val => usrCellOf name exts ++ usrCellsOfExprs args ++ usrCellsOfExpr val
+  -- operand slots handed over by reference: the callee may write them
+  | .callx _ exts args _ _ => refArgs exts ++ usrCellsOfExprs args
   | _ => []
 def usrCellsOfExprs : List CExpr → List String
   | [] => []
@@ -192,7 +203,7 @@ def stuckStr : Stuck → String
   | .undef m => "undefined: " ++ m
 
 /-- sub-routines with a specification-level meaning in `execIL` -/
-def specSubs : List String := ["set_usr_field"]
+def specSubs : List String := ["set_usr_field", "get_usr_field"]
 
 def cfgOfString : String → Cfg
   | "fixed" => Cfg.fixed
@@ -207,6 +218,14 @@ def csubOfSexp : Sexp → Option (String × CSub)
       let ret ← ctOfSexp ret
       let body ← CStmt.ofSexps body
       pure (name, { params := ps, ret := ret, body := body })
+  | .list [.atom "csub", .str name, .list params, ret, .list body, .list refs] => do
+      let ps ← params.mapM (fun p => match p with
+        | .list [.str n, t] => do let t ← ctOfSexp t; pure (n, t)
+        | _ => none)
+      let ret ← ctOfSexp ret
+      let body ← CStmt.ofSexps body
+      let refs ← strsOfSexps refs
+      pure (name, { params := ps, ret := ret, body := body, refs := refs })
   | _ => none
 
 def handleSem (st : DState) : List Sexp → Option Sexp
@@ -227,18 +246,18 @@ def handleSem (st : DState) : List Sexp → Option Sexp
       | some t =>
         let realEff := effectOfTerm t
         let realStr := (canonTerm realEff.toTerm).render
-        -- `hex_set_usr_field` is read at the level of its specification (`ILSem.lean`), not through its compiled body
-        -- (which stays checked per output)
+        -- `hex_set_usr_field` / `hex_get_usr_field` are read at the level of their specification (`ILSem.lean`), not
+        -- through their compiled bodies (which stay checked per output)
         let ilSubs := st.subBodies.filter (fun p => !specSubs.contains p.1)
         -- search: execute both on sampled states
         let run := (List.range n).foldl (fun (acc : Nat × Nat × Option String) i =>
           let (ran, skipped, fail) := acc
           if fail.isSome then acc else
           let σ := mkState (seed * 1000 + i)
-          match execCHs macroSem csubs 400 prog σ with
+          match execCHs (macroSemFor σ) csubs 400 prog σ with
           | .error _ => (ran, skipped + 1, none)          -- C side undefined / out of fuel: state not judged
           | .ok σc =>
-            match execIL macroSem ilSubs 4000 realEff σ with
+            match execIL (macroSemFor σ) ilSubs 4000 realEff σ with
             | .error .fuel => (ran, skipped + 1, none)
             | .error e => (ran + 1, skipped, some s!"state {seed * 1000 + i}: IL gets stuck ({stuckStr e}) where C is defined")
             | .ok σi =>
